@@ -45,6 +45,7 @@ type driver struct {
 	crons    []string
 	converge bool
 	ntrav    int
+	routedBias bool // task-centred workloads: most promises are routed
 }
 
 // ---- search: every search goes through the real API helper (state names, limits, cursor
@@ -320,6 +321,9 @@ func (d *driver) timeout() int64 {
 }
 
 func (d *driver) tags() map[string]string {
+	if d.routedBias && d.r.Intn(10) < 6 {
+		return map[string]string{"resonate:invoke": d.pick([]string{"w1", "w2", "poll://g1/i1"})}
+	}
 	switch d.r.Intn(8) {
 	case 0, 1, 2:
 		return nil
